@@ -589,7 +589,9 @@ class C14(EvalProp):
     level_text = ("Coq theorems: the model of extension_custom and of the argument marshalling in test_function.rs::custom computes in/nin/"
                   "any_of/none_of/subset_of exactly as existsb/forallb over the element equality, nin and none_of are the negations, the empty "
                   "array is a subset of anything, and a missing or non-array argument makes the test false. Correspondence: all pairs of arrays "
-                  "of length <= 3 over a 6-value universe, non-arrays and missing members, through the crate.")
+                  "of length <= 3 over a 6-value universe, non-arrays and missing members, through the crate. C14_string_level_calls: the TEXT of "
+                  "a filter calling the five functions goes through the generated grammar, try_new, extension_custom and the evaluator and keeps "
+                  "exactly the children on which the set-theoretic reading holds.")
     level_note = "element equality is serde_json's Value == (kind-sensitive numbers), as DESIGN.md C14 states; arguments are literals or singular queries"
     rule = ("exhaustive: (x, L) and (A, B) over arrays of length <= 2 (plus sampled length 3) of a 6-value universe incl. nested and empty, "
             "non-array and missing arguments, for the five functions and their negations; non-trivial = RFC keeps at least one element")
